@@ -61,6 +61,9 @@ func checkProgram(r *engine.R, p program, abort bool) {
 		// a crash of the front end is C03/C12's property; recorded, not judged here
 		r.Count("compiler_panics(not judged here)", 1)
 		r.Outcome("front-end panic")
+		if os.Getenv("C29_SHOW_REJECTED") != "" {
+			fmt.Fprintf(os.Stderr, "FRONTPANIC %s %s\n", p.id, res.PanicSig)
+		}
 		return
 	case fn == nil:
 		r.Count("rejected_by_checker", 1)
@@ -87,7 +90,18 @@ func checkProgram(r *engine.R, p program, abort bool) {
 		r.Outcome("all functions valid")
 	}
 	if p.norun || !probeAvailable {
+		if p.norun {
+			r.Count("programs_verified_statically_only(known to corrupt memory when run: tail-call closure terms)", 1)
+		}
 		return
+	}
+	for _, fr := range reports {
+		if fr.broken || fr.unbounded {
+			// a function whose operand stack is known to run into its locals / to grow without bound: running it
+			// adds nothing and can take the worker process down
+			r.Count("programs_not_run_because_of_a_static_stack_finding", 1)
+			return
+		}
 	}
 	conform(r, p, mode, fn, reports)
 }
@@ -105,6 +119,9 @@ func firstLine(s string) string {
 
 func account(r *engine.R, p program, mode string, fr *funcReport) {
 	r.Count("functions_verified", 1)
+	for op := range fr.opsSeen {
+		r.Count("emitted_op:"+op, 1)
+	}
 	r.Count("instructions_decoded", len(fr.instrs))
 	r.AddStates(fr.states)
 	r.AddTrans(fr.trans)
@@ -145,8 +162,8 @@ func main() {
 			"method bodies compiled one at a time (MethodCheckConcurrencyLimit=1)",
 		},
 		CaseTimeout:      120 * time.Second,
-		QuickDeadline:    6 * time.Minute,
-		ThoroughDeadline: 40 * time.Minute,
+		QuickDeadline:    20 * time.Minute, // the machine is shared: about 10 CPU-minutes of work
+		ThoroughDeadline: 90 * time.Minute,
 		Setup: func(c *engine.Ctx) {
 			elkrun.Init()
 			m, err := loadVMModel(threadSource())
@@ -156,8 +173,45 @@ func main() {
 			}
 			model = m
 		},
-		Run: run,
+		Run:    run,
+		Finish: finish,
 	})
+}
+
+// finish condenses the per-opcode counters: which opcodes the space emits, which of them the VM executed under
+// the probe, and which entries of the stack-effect table were therefore never confirmed by conformance.
+func finish(a *engine.Agg) {
+	emitted, executed := map[string]bool{}, map[string]bool{}
+	for k := range a.Counters {
+		if strings.HasPrefix(k, "emitted_op:") {
+			emitted[strings.TrimPrefix(k, "emitted_op:")] = true
+			delete(a.Counters, k)
+		}
+		if strings.HasPrefix(k, "executed_op:") {
+			executed[strings.TrimPrefix(k, "executed_op:")] = true
+			delete(a.Counters, k)
+		}
+	}
+	var notExec, notEmitted []string
+	for op := range emitted {
+		if !executed[op] {
+			notExec = append(notExec, op)
+		}
+	}
+	for op := range effects {
+		if !emitted[op] {
+			notEmitted = append(notEmitted, op)
+		}
+	}
+	sort.Strings(notExec)
+	sort.Strings(notEmitted)
+	a.Counters["opcodes_emitted_by_the_space"] = int64(len(emitted))
+	a.Counters["opcodes_executed_under_the_probe"] = int64(len(executed))
+	a.Counters["stack_effect_table_entries"] = int64(len(effects))
+	a.Notes = append([]string{
+		"opcodes emitted but never executed under the probe (their stack effect is checked statically only): " + strings.Join(notExec, ","),
+		"opcodes with a stack-effect entry that no program of the space emits: " + strings.Join(notEmitted, ","),
+	}, a.Notes...)
 }
 
 func run(c *engine.Ctx) {
